@@ -344,7 +344,11 @@ func Main(h *Harness) {
 			break
 		}
 		c := &Ctx{S: choice.New(*seed, uint64(run)), Tier: *tier, Seed: *seed, RunIx: uint64(run), Args: args}
+		t0 := time.Now()
 		r := execFresh(h, c, -1)
+		if os.Getenv("VERIF_PROGRESS") != "" {
+			fmt.Fprintf(os.Stderr, "PROGRESS run %d took %.2fs steps=%d violation=%v\n", run, time.Since(t0).Seconds(), r.Steps, r.Violation != nil)
+		}
 		rep.Runs++
 		digest(fmt.Sprintf("r%d", run), r)
 		account(r)
@@ -418,8 +422,9 @@ func execVec(h *Harness, rf *ReplayFile, tier string, trace bool) *Run {
 func minimise(h *Harness, rf *ReplayFile, tier string, budget time.Duration) {
 	deadline := time.Now().Add(budget)
 	tries := 0
+	expired := func() bool { return tries >= h.MinExec || time.Now().After(deadline) }
 	test := func(vec []uint32) bool {
-		if tries >= h.MinExec || time.Now().After(deadline) {
+		if expired() {
 			return false
 		}
 		tries++
@@ -435,9 +440,9 @@ func minimise(h *Harness, rf *ReplayFile, tier string, budget time.Duration) {
 		rf.MinTries = tries
 		return
 	}
-	// 1. truncate (exhausted vector reads as zeros)
-	for n := len(vec) / 2; n >= 1; n /= 2 {
-		for len(vec) > n {
+	// 1. truncate (an exhausted vector reads as zeros)
+	for n := len(vec) / 2; n >= 1 && !expired(); n /= 2 {
+		for len(vec) > n && !expired() {
 			cand := vec[:len(vec)-n]
 			if test(cand) {
 				vec = append([]uint32(nil), cand...)
@@ -447,8 +452,8 @@ func minimise(h *Harness, rf *ReplayFile, tier string, budget time.Duration) {
 		}
 	}
 	// 2. zero out chunks (delta debugging towards the all-zero vector)
-	for n := len(vec) / 2; n >= 1; n /= 2 {
-		for i := 0; i+n <= len(vec); i += n {
+	for n := len(vec) / 2; n >= 1 && !expired(); n /= 2 {
+		for i := 0; i+n <= len(vec) && !expired(); i += n {
 			allZero := true
 			for _, x := range vec[i : i+n] {
 				if x != 0 {
@@ -469,8 +474,8 @@ func minimise(h *Harness, rf *ReplayFile, tier string, budget time.Duration) {
 		}
 	}
 	// 3. delete chunks (shifts later decisions; often removes whole operations)
-	for n := len(vec) / 2; n >= 1; n /= 2 {
-		for i := 0; i+n <= len(vec); {
+	for n := len(vec) / 2; n >= 1 && !expired(); n /= 2 {
+		for i := 0; i+n <= len(vec) && !expired(); {
 			cand := append(append([]uint32(nil), vec[:i]...), vec[i+n:]...)
 			if test(cand) {
 				vec = cand
@@ -480,8 +485,8 @@ func minimise(h *Harness, rf *ReplayFile, tier string, budget time.Duration) {
 		}
 	}
 	// 4. decrease single values
-	for i := range vec {
-		for vec[i] > 0 {
+	for i := 0; i < len(vec) && !expired(); i++ {
+		for vec[i] > 0 && !expired() {
 			cand := append([]uint32(nil), vec...)
 			cand[i] = vec[i] / 2
 			if test(cand) {
